@@ -9,7 +9,7 @@
     agree.  Then the specification's result and the machine's are related again / both trap. *)
 From Coq Require Import ZArith NArith List Lia Bool FMapPositive.
 From CB Require Import Common.IntN Common.IntNProofs Wasm.Syntax Wasm.Opcodes Wasm.Sem Wasm.Compile Wasm.Machine
-     Wasm.MachineLemmas Wasm.CompileLemmas Wasm.NumOpsProofs.
+     Wasm.MachineLemmas Wasm.CompileLemmas Wasm.NumOpsProofs Wasm.SemProofs.
 Import ListNotations.
 Local Open Scope Z_scope.
 Local Arguments i32_bytes : simpl never.
@@ -66,7 +66,7 @@ Definition mem_rel (mm : option memory) (sm : option memory) : Prop :=
   match mm, sm with
   | None, None => True
   | Some a, Some b => mem_pages a = mem_pages b /\ mem_data a = mem_data b /\ Z.of_N (grow_limit cap b) = max_memory
-                      /\ (mem_pages b <= 65536)%N
+                      /\ (mem_pages b <= 65536)%N /\ (forall a, 0 <= mem_get b a < 256)
   | _, _ => False
   end.
 
@@ -139,6 +139,32 @@ Definition grow_result (M : mstate) (v : Z) : (Z -> Z) * mstate :=
         | None => M
         end).
 
+Definition load_width (t : valtype) (pk : option (packsize * sx)) : nat :=
+  match pk with None => type_bytes t | Some (p, _) => pack_bytes p end.
+Definition load_conv (t : valtype) (pk : option (packsize * sx)) (raw : Z) : Z :=
+  match t, pk with
+  | T_i32, None => from_i32 raw
+  | T_i64, None => from_i64 raw
+  | T_i32, Some (P8, SX_S) => from_i32 (sext 8 raw)
+  | T_i32, Some (P16, SX_S) => from_i32 (sext 16 raw)
+  | T_i32, Some (_, _) => from_i32 raw
+  | T_i64, Some (P8, SX_S) => from_i64 (sext 8 raw)
+  | T_i64, Some (P16, SX_S) => from_i64 (sext 16 raw)
+  | T_i64, Some (P32, SX_S) => from_i64 (sext 32 raw)
+  | T_i64, Some (_, SX_U) => from_i64 raw
+  end.
+Definition load_result (t : valtype) (pk : option (packsize * sx)) (off : N) (base : Z) (M : mstate)
+  : sum trap_reason ((Z -> Z) * mstate) :=
+  let pos := as_u32 base + Z.of_N off in
+  match ms_mem M with
+  | Some mm => if pos + Z.of_nat (load_width t pk) <=? mlen M
+               then inr (fun _ : Z => load_conv t pk (of_bytes (mem_read mm (Z.to_N pos) (load_width t pk))), M)
+               else inl TMemory
+  | None => inl TMemory
+  end.
+Definition load_valid (t : valtype) (pk : option (packsize * sx)) : bool :=
+  match t, pk with T_i32, Some (P32, _) => false | _, _ => true end.
+
 Definition gi_val (b : binstr) (srcs : list Z) (M : mstate) : option (sum trap_reason ((Z -> Z) * mstate)) :=
   match b, srcs with
   | BUnop T_i32 o, [s] => Some (inr (fun old => set_short old (rs_unop32 o s), M))
@@ -162,6 +188,7 @@ Definition gi_val (b : binstr) (srcs : list Z) (M : mstate) : option (sum trap_r
   | BGlobalGet i, [] => Some (inr (fun _ => nth i (ms_globals M) 0, M))
   | BMemorySize, [] => Some (inr (fun _ => from_i32 (mlen M / 65536), M))
   | BMemoryGrow, [v] => Some (inr (grow_result M v))
+  | BLoad t pk off, [base] => Some (load_result t pk off base M)
   | _, _ => None
   end.
 
@@ -171,6 +198,7 @@ Definition sim_gi (b : binstr) : bool :=
   | BUnop T_i32 Extend32S => false
   | BBinop _ RemS => false          (* finding F3: rem_s(MIN,-1) *)
   | BGlobalGet i => Z.of_nat i <? 65536
+  | BLoad t pk off => (off <? 4294967296)%N && load_valid t pk
   | BUnop _ _ | BEqz _ | BCvt _ | BBinop _ _ | BRelop _ _ | BSelect | BMemorySize | BMemoryGrow => true
   | _ => false
   end.
@@ -231,6 +259,10 @@ Lemma exec_relop64 M pc o : exec_op art mhost c consts M pc (relop_opcode T_i64 
       inr (set_short old (rs_relop o (as_i64 l) (as_i64 r) (as_u64 l) (as_u64 r)))).
 Proof. destruct o; reflexivity. Qed.
 
+Lemma exec_load M pc t pk : load_valid t pk = true ->
+  exec_op art mhost c consts M pc (load_opcode t pk) = do_load c consts M pc (load_width t pk) (load_conv t pk).
+Proof. destruct t, pk as [[[] []]|]; try discriminate; reflexivity. Qed.
+
 Definition idx_ok (x : Z) : Prop := -2147483648 <= x < 2147483648.
 
 Lemma gi_machine b opc imm k ps d M :
@@ -271,6 +303,18 @@ Proof.
       (let g := nth (Z.to_nat (get_u16 c (ms_pc M + 1))) (ms_globals M) 0 in
        SNext (set_pc (set_reg M (get_i32 c (ms_pc M + 1 + 2)) g) (ms_pc M + 1 + 6))).
     cbv zeta. rewrite Eg, Hdst, Nat2Z.id. do 2 f_equal; try lia.
+  - (* load *)
+    destruct ps as [|p1 [|? ?]]; try discriminate.
+    apply andb_true_iff in Hsim. destruct Hsim as [Hoff Hval]. apply N.ltb_lt in Hoff.
+    rewrite u32_bytes_length in *. pose proof (Hsrc 0%nat p1 eq_refl) as E1.
+    cbn [length Z.of_nat Pos.of_succ_nat Pos.succ] in *. rewrite ?Z.mul_0_r, ?Z.add_0_r in *.
+    pose proof (code_at_u32 c (ms_pc M + 1) (Z.of_N offset) ltac:(lia) Himm) as Eo'.
+    rewrite (exec_load M _ t pk Hval). unfold do_load. rewrite Eo', E1.
+    replace (ms_pc M + 1 + 8) with (ms_pc M + 1 + 4 + 4 * 1) by lia. rewrite Hdst.
+    eexists; split; [reflexivity|]. cbn [map]. unfold load_result, denote.
+    destruct (ms_mem M); [|reflexivity].
+    destruct (as_u32 (get_local consts M (provider_idx p1)) + Z.of_N offset + Z.of_nat (load_width t pk) <=? mlen M); [|reflexivity].
+    do 2 f_equal; try lia.
   - (* memory.size *)
     destruct ps; try discriminate. cbn [length Z.of_nat] in *. rewrite ?Z.mul_0_r, ?Z.add_0_r in *.
     eexists; split; [reflexivity|].
@@ -384,6 +428,44 @@ Proof. intros <-. cbn. apply low32_set_short. Qed.
 Lemma repr_long old x z : x mod 18446744073709551616 = z -> repr (set_long old x) (VI64 z).
 Proof. intros <-. cbn. apply as_u64_set_long. Qed.
 
+
+(** ** memory loads: the machine and the specification read the same bytes and convert alike *)
+Lemma mem_get_ext a b x : mem_data a = mem_data b -> mem_get a x = mem_get b x.
+Proof. intros E. unfold mem_get. rewrite E. reflexivity. Qed.
+Lemma mem_read_ext a b : mem_data a = mem_data b -> forall k x, mem_read a x k = mem_read b x k.
+Proof. intros E k. induction k; intros x; cbn; auto. rewrite IHk, (mem_get_ext a b x E). reflexivity. Qed.
+Lemma mem_read_range mm : (forall a, 0 <= mem_get mm a < 256) -> forall k x, Forall (fun b => 0 <= b < 256) (mem_read mm x k).
+Proof. intros H k. induction k; intros x; cbn; constructor; auto. Qed.
+Lemma of_bytes_range bs : Forall (fun b => 0 <= b < 256) bs -> 0 <= of_bytes bs < 256 ^ Z.of_nat (length bs).
+Proof.
+  induction 1 as [|b r Hb Hr IH]; cbn [of_bytes length]; [cbn; lia|].
+  rewrite Nat2Z.inj_succ, Z.pow_succ_r by lia. lia.
+Qed.
+Lemma mem_read_length mm : forall k x, length (mem_read mm x k) = k.
+Proof. induction k; intros; cbn; auto. Qed.
+
+Lemma load_conv_agree t pk raw :
+  load_valid t pk = true -> 0 <= raw < 256 ^ Z.of_nat (load_width t pk) ->
+  repr (load_conv t pk raw)
+       (mkval t (match pk with
+                 | None => raw
+                 | Some (p, SX_U) => iextend_u (8 * Z.of_nat (pack_bytes p)) (bits t) raw
+                 | Some (p, SX_S) => iextend_s (8 * Z.of_nat (pack_bytes p)) (bits t) raw
+                 end)).
+Proof.
+  intros Hv Hr.
+  assert (S8 : forall x, 0 <= x < 256 -> sext 8 x = signed 8 x) by (intros x Hx; rewrite sext_signed, Z.mod_small by (change (2 ^ 8) with 256; lia); reflexivity).
+  assert (S16 : forall x, 0 <= x < 65536 -> sext 16 x = signed 16 x) by (intros x Hx; rewrite sext_signed, Z.mod_small by (change (2 ^ 16) with 65536; lia); reflexivity).
+  assert (S32 : forall x, 0 <= x < 4294967296 -> sext 32 x = signed 32 x) by (intros x Hx; rewrite sext_signed, Z.mod_small by (change (2 ^ 32) with 4294967296; lia); reflexivity).
+  destruct t, pk as [[[] []]|]; try discriminate Hv; cbn [load_width load_conv type_bytes pack_bytes mkval repr bits Z.of_nat Pos.of_succ_nat Pos.succ Z.mul] in *;
+    unfold iextend_u, iextend_s, unsigned, wrap, modulus, from_i32, from_i64, low32, as_u64, two32, two64;
+    rewrite ?Z.mod_mod by lia.
+  all: try (change (256 ^ 1) with 256 in Hr); try (change (256 ^ 2) with 65536 in Hr);
+       try (change (256 ^ 4) with 4294967296 in Hr); try (change (256 ^ 8) with 18446744073709551616 in Hr).
+  all: try (apply Z.mod_small; lia).
+  all: try (rewrite S8 by lia; reflexivity); try (rewrite S16 by lia; reflexivity); try (rewrite S32 by lia; reflexivity).
+Qed.
+
 Definition gi_post (M : mstate) (res : sum trap_reason ((Z -> Z) * mstate)) (st' : store) (v' : val) : Prop :=
   exists w Mm, res = inr (w, Mm) /\ (forall old, repr (w old) v')
                /\ mupd M Mm /\ Forall2 repr (ms_globals Mm) (s_globals st') /\ mem_rel (ms_mem Mm) (s_mem st').
@@ -416,11 +498,46 @@ Proof.
     clear - Hg E. revert i E. induction Hg; intros [|i] E; cbn in *; try discriminate.
     + inversion E; subst. assumption.
     + apply IHHg. exact E.
+  - (* load *)
+    destruct srcs as [|base [|? ?]]; try discriminate. inversion Hv; subst; clear Hv.
+    inversion Hrep as [|? v ? ? R1 Hr1]; subst. inversion Hr1; subst. cbn [app].
+    apply andb_true_iff in Hsim. destruct Hsim as [Hoff Hval].
+    destruct v as [i|i]; cbn [exec_simple]; [|exact I].
+    destruct (s_mem st) as [sm|] eqn:Es; [|exact I].
+    unfold mem_rel in Hm. destruct (ms_mem M) as [mm|] eqn:Em; [|contradiction]. destruct Hm as (Hp & Hd & Hl & Hb & Hby).
+    cbn in R1. assert (Hi : 0 <= i < 4294967296) by (rewrite <- R1; apply low32_range).
+    unfold load_result. rewrite Em. unfold as_u32. rewrite R1.
+    set (w := load_width t pk).
+    assert (Ew : match pk with None => type_bytes t | Some (p, _) => pack_bytes p end = w) by reflexivity.
+    assert (Eml : mlen M = Z.of_N (mem_len sm)) by (unfold mlen; rewrite Em; unfold mem_len; rewrite Hp; reflexivity).
+    assert (Eb : (i + Z.of_N offset + Z.of_nat w <=? mlen M) = in_bounds sm (Z.to_N i + offset) w).
+    { unfold in_bounds. rewrite Eml.
+      destruct (Z.leb_spec (i + Z.of_N offset + Z.of_nat w) (Z.of_N (mem_len sm))), (N.leb_spec (Z.to_N i + offset + N.of_nat w) (mem_len sm)); auto; lia. }
+    assert (Eraw : of_bytes (mem_read mm (Z.to_N (i + Z.of_N offset)) w) = of_bytes (mem_read sm (Z.to_N i + offset) w)).
+    { rewrite (mem_read_ext mm sm Hd). f_equal. f_equal. lia. }
+    assert (Rraw : 0 <= of_bytes (mem_read sm (Z.to_N i + offset) w) < 256 ^ Z.of_nat w).
+    { rewrite <- (mem_read_length sm w (Z.to_N i + offset)) at 3. apply of_bytes_range. apply mem_read_range. exact Hby. }
+    rewrite Eb, Eraw.
+    assert (SEM : forall k, k = w -> mem_load sm (Z.to_N i + offset) k =
+                  if in_bounds sm (Z.to_N i + offset) w then Some (of_bytes (mem_read sm (Z.to_N i + offset) w)) else None).
+    { intros k ->. reflexivity. }
+    pose proof (load_conv_agree t pk _ Hval Rraw) as CA.
+    destruct pk as [[p sg]|]; rewrite (SEM _ Ew); destruct (in_bounds sm (Z.to_N i + offset) w).
+    + cbn [ok]. eexists; split; [reflexivity|split; [reflexivity|]].
+      exists (fun _ : Z => load_conv t (Some (p, sg)) (of_bytes (mem_read sm (Z.to_N i + offset) w))), M.
+      split; [reflexivity|]. split; [intros _; destruct sg; exact CA|]. split; [apply mupd_refl|]. split; [exact Hg|].
+      rewrite Em, Es. cbn. auto.
+    + eexists; reflexivity.
+    + cbn [ok]. eexists; split; [reflexivity|split; [reflexivity|]].
+      exists (fun _ : Z => load_conv t None (of_bytes (mem_read sm (Z.to_N i + offset) w))), M.
+      split; [reflexivity|]. split; [intros _; exact CA|]. split; [apply mupd_refl|]. split; [exact Hg|].
+      rewrite Em, Es. cbn. auto.
+    + eexists; reflexivity.
   - (* memory.size *)
     destruct srcs; try discriminate. inversion Hv; subst; clear Hv. inversion Hrep; subst. cbn [app exec_simple].
     destruct (s_mem st) as [sm|] eqn:Es; [|exact I]. cbn [ok].
     eexists; split; [reflexivity|split; [reflexivity|]]. apply POST. intros _.
-    unfold mem_rel in Hm. destruct (ms_mem M) as [mm|] eqn:Em; [|contradiction]. destruct Hm as (Hp & Hd & Hl & Hb).
+    unfold mem_rel in Hm. destruct (ms_mem M) as [mm|] eqn:Em; [|contradiction]. destruct Hm as (Hp & Hd & Hl & Hb & Hby).
     cbn. unfold mlen. rewrite Em. unfold mem_len, page_size. rewrite Hp. unfold from_i32, low32, two32.
     rewrite N2Z.inj_mul. change (Z.of_N 65536) with 65536. rewrite Z.div_mul by lia. rewrite Z.mod_mod by lia.
     apply Z.mod_small. lia.
@@ -429,7 +546,7 @@ Proof.
     inversion Hrep as [|? v ? ? R1 Hr1]; subst. inversion Hr1; subst. cbn [app].
     destruct v as [n|n]; cbn [exec_simple]; [|exact I].
     destruct (s_mem st) as [sm|] eqn:Es; [|exact I].
-    unfold mem_rel in Hm. destruct (ms_mem M) as [mm|] eqn:Em; [|contradiction]. destruct Hm as (Hp & Hd & Hl & Hb).
+    unfold mem_rel in Hm. destruct (ms_mem M) as [mm|] eqn:Em; [|contradiction]. destruct Hm as (Hp & Hd & Hl & Hb & Hby).
     cbn in R1. assert (Hn : 0 <= n < 4294967296) by (rewrite <- R1; apply low32_range).
     unfold mem_grow, grow_result. unfold as_u32. rewrite R1.
     assert (Esz : mlen M / 65536 = Z.of_N (mem_pages sm)).
@@ -445,13 +562,13 @@ Proof.
       * rewrite Em. assert (L : (grow_limit cap sm <= 65536)%N) by (unfold grow_limit; lia).
         destruct (Z.eqb_spec n 0) as [->|Hn0].
         -- split; [apply mupd_refl|]. split; [exact Hg|]. unfold with_mem, set_mem; cbn [s_mem]. rewrite Em.
-           cbn. rewrite N.add_0_r. repeat split; auto.
+           cbn. rewrite N.add_0_r. repeat split; auto; try (apply (proj1 (Hby _))); try (apply (proj2 (Hby _))).
         -- split; [repeat split|]. split; [exact Hg|]. unfold with_mem, set_mem; cbn [s_mem ms_mem set_mmem].
-           repeat split; cbn; auto; lia.
+           repeat split; cbn; auto; try lia; try (apply (proj1 (Hby _))); try (apply (proj2 (Hby _))).
     + destruct (Z.gtb_spec (Z.of_N (mem_pages sm) + n) (Z.of_N (grow_limit cap sm))) as [G|G]; [|lia].
       cbn [ok]. eexists; split; [reflexivity|split; [reflexivity|]].
       eexists _, M. split; [reflexivity|]. split; [intros old; apply repr_short; reflexivity|].
-      split; [apply mupd_refl|]. split; [exact Hg|]. unfold with_mem, set_mem; cbn [s_mem]. rewrite Em. repeat split; auto.
+      split; [apply mupd_refl|]. split; [exact Hg|]. unfold with_mem, set_mem; cbn [s_mem]. rewrite Em. repeat split; auto; try (apply (proj1 (Hby _))); try (apply (proj2 (Hby _))).
   - (* unop *)
     destruct srcs as [|s1 [|? ?]]; try (destruct t; discriminate).
     inversion Hrep as [|? v ? ? R1 Hr1]; subst. inversion Hr1; subst. cbn [app exec_simple].
@@ -1233,12 +1350,18 @@ Proof.
 Qed.
 
 (** ** the whole sequence *)
+Definition store_valid (t : valtype) (pk : option packsize) : bool :=
+  match t, pk with T_i32, Some P32 => false | _, _ => true end.
+Definition store_width (t : valtype) (pk : option packsize) : nat :=
+  match pk with None => type_bytes t | Some p => pack_bytes p end.
+
 Definition straight_ok (b : binstr) : bool :=
   match b with
   | BNop | BDrop => true
   | BLocalGet i | BLocalSet i | BLocalTee i => Z.of_nat i <? 2147483648
   | BConst t z => (0 <=? z) && (z <? 2 ^ bits t)
   | BGlobalSet i => Z.of_nat i <? 65536
+  | BStore t pk off => (off <? 4294967296)%N && store_valid t pk
   | _ => sim_gi b
   end.
 
@@ -1276,6 +1399,104 @@ Proof.
   - exact I.
   - destruct H as (W & n & M' & Hn2 & R & F2). split; [exact W|]. exists (n1 + n)%nat, M'.
     split; [rewrite (nsteps_app _ _ _ _ Hn); exact Hn2|]. split; [exact R|eapply frame_eq_trans; eauto].
+Qed.
+
+(** ** memory stores *)
+Lemma exec_store M pc t pk : store_valid t pk = true ->
+  exec_op art mhost c consts M pc (store_opcode t pk) = do_store c consts M pc (store_width t pk).
+Proof. destruct t, pk as [[]|]; try discriminate; reflexivity. Qed.
+
+Lemma bytes_of_mod k : forall j x, (k <= j)%nat -> bytes_of k (x mod 256 ^ Z.of_nat j) = bytes_of k x.
+Proof.
+  induction k as [|k IH]; intros j x H; cbn [bytes_of]; [reflexivity|].
+  destruct j as [|j]; [lia|]. rewrite Nat2Z.inj_succ, Z.pow_succ_r by lia.
+  assert (P : 0 < 256 ^ Z.of_nat j) by (apply Z.pow_pos_nonneg; lia).
+  f_equal.
+  - rewrite Z.rem_mul_r by lia. rewrite (Z.mul_comm 256), Z.mod_add by lia. apply Z.mod_mod. lia.
+  - rewrite Z.rem_mul_r by lia. rewrite (Z.mul_comm 256), Z.div_add by lia.
+    rewrite (Z.div_small (x mod 256) 256) by (apply Z.mod_pos_bound; lia). rewrite Z.add_0_l. apply IH. lia.
+Qed.
+
+Lemma mem_write_data_ext bs : forall a b x, mem_data a = mem_data b -> mem_data (mem_write a x bs) = mem_data (mem_write b x bs).
+Proof.
+  induction bs as [|y r IH]; intros a b x E; cbn [mem_write]; [exact E|]. apply IH. unfold mem_set. cbn. rewrite E. reflexivity.
+Qed.
+Lemma mem_write_max bs : forall a x, mem_max (mem_write a x bs) = mem_max a.
+Proof. induction bs; intros; cbn [mem_write]; auto. rewrite IHbs. reflexivity. Qed.
+Lemma mem_write_bytes_ok bs : forall mm x, (forall a, 0 <= mem_get mm a < 256) -> Forall (fun b => 0 <= b < 256) bs ->
+  forall a, 0 <= mem_get (mem_write mm x bs) a < 256.
+Proof.
+  induction bs as [|y r IH]; intros mm x H F a; cbn [mem_write]; [apply H|].
+  inversion F; subst. apply IH; auto. intros a'. destruct (N.eq_dec x a') as [->|Hne].
+  - rewrite SemProofs.mem_get_set_same. assumption.
+  - rewrite SemProofs.mem_get_set_other by exact Hne. apply H.
+Qed.
+
+Lemma step_store s s1 t pk off st locals vs M :
+  cwf nl s -> small s1 -> (off <? 4294967296)%N = true -> store_valid t pk = true -> rel s st locals vs M ->
+  gi (set_last s None) (store_opcode t pk) (u32_bytes (Z.of_N off)) 2 false = Some s1 ->
+  step_ok s s1 M (exec_simple cap (BStore t pk off) st locals vs) /\ c_last s1 = None.
+Proof.
+  intros W S1 Hoff Hval R Hgi. apply N.ltb_lt in Hoff.
+  destruct (gi_compile s _ _ _ false s1 W Hgi) as (ps & rest & Es & Lps & Fps & Ec & Eb & W1 & Bn & (Es1 & Eo & El)).
+  split; [|exact El]. destruct ps as [|pv [|pb [|? ?]]]; try discriminate Lps.
+  exists (store_opcode t pk :: u32_bytes (Z.of_N off) ++ loc_bytes [pv; pb]). split; [exact Eo|].
+  split; [split; [lia|exists []; rewrite app_nil_r; exact Ec]|]. intros Hc.
+  assert (S : small s) by (eapply small_mono; eauto; lia).
+  pose proof (r_stack _ _ _ _ _ R) as RS. rewrite Es in RS. cbn [app] in RS.
+  inversion RS as [|? v ? vs1 Rv RS1]; subst. inversion RS1 as [|? vb ? restv Rb Rr]; subst.
+  assert (Hpv : idx_ok (provider_idx pv)) by (inversion Fps; subst; eapply idx_ok_of_pwf; eauto; apply W).
+  assert (Hpb : idx_ok (provider_idx pb)).
+  { inversion Fps as [|? ? ? F2]; subst. inversion F2; subst. eapply idx_ok_of_pwf; eauto. apply W. }
+  (* machine step *)
+  rewrite <- (r_pc _ _ _ _ _ R) in Hc.
+  apply code_at_cons in Hc. destruct Hc as [H0 Hc]. apply code_at_app in Hc. destruct Hc as [H1 H2].
+  rewrite u32_bytes_length in H2. unfold loc_bytes in H2. cbn [flat_map] in H2. rewrite app_nil_r in H2.
+  apply code_at_app in H2. destruct H2 as [H2 H3]. rewrite i32_bytes_length in H3.
+  pose proof (code_at_u32 c _ (Z.of_N off) ltac:(lia) H1) as Eoff.
+  pose proof (code_at_i32 c _ _ Hpv H2) as Ev. pose proof (code_at_i32 c _ _ Hpb H3) as Ebs.
+  assert (Hstep : mstep M = do_store c consts M (ms_pc M + 1) (store_width t pk)).
+  { rewrite (mstep_at M (r_idx _ _ _ _ _ R)), H0, N2Z.id. apply exec_store. exact Hval. }
+  unfold do_store in Hstep. rewrite Eoff in Hstep.
+  replace (ms_pc M + 1 + 4) with (ms_pc M + 1 + Z.of_nat 4) in Hstep by lia. rewrite Ev in Hstep.
+  replace (ms_pc M + 1 + 8) with (ms_pc M + 1 + Z.of_nat 4 + Z.of_nat 4) in Hstep by lia. rewrite Ebs in Hstep.
+  fold (denote M pv) in Hstep. fold (denote M pb) in Hstep.
+  (* specification *)
+  destruct vb as [i|i]; cbn [exec_simple]; [|destruct v; exact I].
+  destruct (s_mem st) as [sm|] eqn:Esm; [|exact I].
+  destruct (payload t v) as [x|] eqn:Epl; [|exact I].
+  pose proof (r_mem _ _ _ _ _ R) as Hm. rewrite Esm in Hm. unfold mem_rel in Hm.
+  destruct (ms_mem M) as [mm|] eqn:Em; [|contradiction]. destruct Hm as (Hp & Hd & Hl & Hb & Hby).
+  cbn in Rb. assert (Hi : 0 <= i < 4294967296) by (rewrite <- Rb; apply low32_range).
+  set (w := store_width t pk) in *.
+  assert (Ew : match pk with None => type_bytes t | Some p => pack_bytes p end = w) by reflexivity.
+  rewrite Ew. unfold as_u32 in Hstep. rewrite Rb in Hstep.
+  assert (Eml : mlen M = Z.of_N (mem_len sm)) by (unfold mlen; rewrite Em; unfold mem_len; rewrite Hp; reflexivity).
+  assert (Ebd : (i + Z.of_N off + Z.of_nat w <=? mlen M) = in_bounds sm (Z.to_N i + off) w).
+  { unfold in_bounds. rewrite Eml.
+    destruct (Z.leb_spec (i + Z.of_N off + Z.of_nat w) (Z.of_N (mem_len sm))), (N.leb_spec (Z.to_N i + off + N.of_nat w) (mem_len sm)); auto; lia. }
+  rewrite Ebd in Hstep. unfold mem_store.
+  destruct (in_bounds sm (Z.to_N i + off) w).
+  - cbn [ok sim_result]. split; [exact W1|].
+    eexists 1%nat, _. split; [cbn; rewrite Hstep; reflexivity|]. split; [|repeat split].
+    assert (Ebytes : bytes_of w (denote M pv) = bytes_of w x).
+    { destruct t, v as [z|z]; cbn in Epl; try discriminate; inversion Epl; subst x; cbn in Rv; rewrite <- Rv.
+      - unfold low32, two32. change 4294967296 with (256 ^ Z.of_nat 4). symmetry. apply bytes_of_mod.
+        unfold w, store_width. destruct pk as [[]|]; try discriminate Hval; cbn; lia.
+      - unfold as_u64, two64. change 18446744073709551616 with (256 ^ Z.of_nat 8). symmetry. apply bytes_of_mod.
+        unfold w, store_width. destruct pk as [[]|]; cbn; lia. }
+    destruct R. constructor; cbn [ms_idx ms_pc ms_regs ms_base ms_globals ms_mem set_pc set_mmem]; auto.
+    + unfold cur_off. rewrite Eo, app_length. cbn [length]. rewrite app_length, u32_bytes_length.
+      unfold loc_bytes. cbn [flat_map]. rewrite app_nil_r, app_length, !i32_bytes_length. unfold cur_off in r_pc0. lia.
+    + cbn [with_mem set_mem s_mem]. rewrite Ebytes. replace (Z.to_N (i + Z.of_N off)) with (Z.to_N i + off)%N by lia.
+      repeat split.
+      * rewrite !SemProofs.mem_write_pages. exact Hp.
+      * apply mem_write_data_ext. exact Hd.
+      * unfold grow_limit. rewrite mem_write_max. exact Hl.
+      * rewrite SemProofs.mem_write_pages. exact Hb.
+      * apply mem_write_bytes_ok; auto. apply bytes_of_range.
+      * apply mem_write_bytes_ok; auto. apply bytes_of_range.
+  - cbn [sim_result]. exists 1%nat, TMemory. cbn. rewrite Hstep. reflexivity.
 Qed.
 
 Definition is_set_tee (b : binstr) : option (nat * bool) :=
@@ -1474,6 +1695,8 @@ Proof.
   - (* local.tee *) cbn in Hsafe. destruct (step_set_tee s (c_last s) s1 i false st locals vs M W S1 Hsafe R Hsc). split; auto.
   - (* global.set *) apply Z.ltb_lt in Hok. cbn [gi_shape] in Hsc.
     destruct (step_global_set s s1 i st locals vs M W S1 Hok R Hsc). split; auto.
+  - (* store *) apply andb_true_iff in Hok. destruct Hok as [Ho Hv]. cbn [gi_shape] in Hsc.
+    destruct (step_store s s1 t pk offset st locals vs M W S1 Ho Hv R Hsc). split; auto.
   - (* const *) apply andb_true_iff in Hok. destruct Hok as [H0 H1]. apply Z.leb_le in H0. apply Z.ltb_lt in H1.
     inversion Hsc; subst.
     destruct (step_const s t z st locals vs M W R (conj H0 H1) CO). split; auto.
